@@ -335,7 +335,7 @@ def run(repo, rep):
     # ---------------------------------------------------------------- M3
     send = repo.func('asceprovider', 'Association.send')
     rep.analysed(send)
-    c = SymClient(repo, send, event_of=ev_kind, hierarchy=hier)
+    c = SymClient(repo, send, event_of=ev_kind, hierarchy=hier, inline=repo.is_helper)
     fin = c.final_states(c.run(empty_state()))
     probs = []
     for s, how in fin:
